@@ -140,6 +140,52 @@ var fixedTwins = func() []fixedTwin {
 		"\tlen := func(v dsl.Var) bool { return len(`a`) == 1 && v.Pure }\n"+twinRule("len("+x+")"), twinRule("(len(`a`) == 1 && "+x+".Pure)"))
 	addRej("two helpers named after package-level functions that call each other", pfDecl+"\nfunc pg(s string) bool { return s != `` }",
 		"\tpf := func(s string) bool { return pg(s) }\n\tpg := func(s string) bool { return pf(s) }\n"+twinRule("pg(`a`) && "+x+".Pure"), twinRule("((pg(`a`))) && "+x+".Pure"))
+	// a package-level function handed to a higher-order helper as an ARGUMENT: the name becomes a callee only after it has been put
+	// in the place of the function parameter. It still means the package-level function (not loadable) unless a helper of the
+	// group carries the name where the argument is written -- a helper that is defined LATER does not.
+	// (A package-level FUNCTION is compiled to bytecode, which knows no dsl.Var: it takes a string. A package-level function
+	// VARIABLE is not compiled.)
+	for _, d := range []struct {
+		name, decl, T, P, ax, ay string
+		body                     func(arg string) string // the body of the helper of the group that carries the name
+	}{
+		{"function", "func pg(s string) bool { return s == `` }", "string", "s", "`int64`", "`int32`", func(a string) string { return x + ".Type.Is(" + a + ")" }},
+		{"function variable", "var pg = func(v dsl.Var) bool { return v.Pure }", "dsl.Var", "v", x, y, func(a string) string { return a + ".Type.Is(`int64`)" }},
+	} {
+		sig := "func(" + d.T + ") bool"
+		apply := "\tapply := func(pred " + sig + ", " + d.P + " " + d.T + ") bool { return pred(" + d.P + ") }\n"
+		applyR := "\tapply := func(" + d.P + " " + d.T + ", pred " + sig + ") bool { return !pred(" + d.P + ") || " + y + ".Const }\n"
+		localPg := "\tpg := func(" + d.P + " " + d.T + ") bool { return " + d.body(d.P) + " }\n"
+		check := "\tcheck := func(" + d.P + " " + d.T + ") bool { return apply(pg, " + d.P + ") }\n"
+		addRej("package-level "+d.name+" passed to a higher-order helper inside a helper; a later helper carries its name", d.decl,
+			apply+check+localPg+twinRule("check("+d.ax+") && pg("+d.ay+")"),
+			twinRule("((pg("+d.ax+"))) && ("+d.body(d.ay)+")"))
+		addRej("package-level "+d.name+" passed to a higher-order helper in Where(); a later helper carries its name", d.decl,
+			apply+twinRule("apply(pg, "+d.ax+")")+localPg+twinRule("pg("+d.ay+")"),
+			twinRule("(pg("+d.ax+"))")+twinRule("("+d.body(d.ay)+")"))
+		addRej("package-level "+d.name+" passed on through two higher-order helpers; a later helper carries its name", d.decl,
+			apply+"\tapply2 := func(p "+sig+", "+d.P+" "+d.T+") bool { return apply(p, "+d.P+") }\n\tcheck := func("+d.P+" "+d.T+") bool { return "+y+".Const || apply2(pg, "+d.P+") }\n"+
+				localPg+twinRule("check("+d.ax+") && pg("+d.ay+")"),
+			twinRule("("+y+".Const || ((pg("+d.ax+")))) && ("+d.body(d.ay)+")"))
+		addRej("package-level "+d.name+" passed as the second argument, called under a negation; a later helper carries its name", d.decl,
+			applyR+"\tcheck := func("+d.P+" "+d.T+") bool { return apply("+d.P+", pg) }\n"+localPg+twinRule("check("+d.ax+") || pg("+d.ay+")"),
+			twinRule("((!pg("+d.ax+") || "+y+".Const)) || ("+d.body(d.ay)+")"))
+		addRej("package-level "+d.name+" passed through a parameter that is named like it; a later helper carries its name", d.decl,
+			"\tapply := func(pg "+sig+", "+d.P+" "+d.T+") bool { return pg("+d.P+") }\n"+check+localPg+twinRule("check("+d.ax+") && pg("+d.ay+")"),
+			twinRule("((pg("+d.ax+"))) && ("+d.body(d.ay)+")"))
+		addRej("package-level "+d.name+" passed to a higher-order helper; no helper carries its name", d.decl,
+			apply+check+twinRule("check("+d.ax+")"), twinRule("((pg("+d.ax+")))"))
+		out = append(out, fixedTwin{name: "package-level " + d.name + " passed to a higher-order helper; the helper that carries its name belongs to the previous group", pkg: d.decl,
+			helper: localPg + twinRule("pg("+d.ax+")"), inlined: twinRule("(" + d.body(d.ax) + ")"), rejected: true,
+			more: [][2]string{{apply + check + twinRule("check("+d.ax+")"), twinRule("((pg(" + d.ax + ")))")}}})
+		// the helper of the group is defined BEFORE the argument is written: the name means the helper
+		add("a helper named like a package-level "+d.name+", defined before it is passed to a higher-order helper inside a helper", d.decl,
+			apply+localPg+check+twinRule("check("+d.ax+")"), twinRule("((("+d.body(d.ax)+")))"))
+		add("a helper named like a package-level "+d.name+", defined before it is passed to a higher-order helper in Where()", d.decl,
+			localPg+apply+twinRule("apply(pg, "+d.ax+")"), twinRule("(("+d.body(d.ax)+"))"))
+		add("a helper named like a package-level "+d.name+", defined between the higher-order helper and the helper that passes it", d.decl,
+			apply+localPg+check+twinRule("check("+d.ax+") || pg("+d.ay+")"), twinRule("((("+d.body(d.ax)+"))) || ("+d.body(d.ay)+")"))
+	}
 	// several groups of one file spell their filters alike and mean something else: equal-named constants of the groups with
 	// other values (used directly in Where, outside helpers), equal-named helpers with other bodies
 	addN := func(name, pkg string, groups ...[2]string) {
